@@ -1,6 +1,9 @@
 package main
 
-import "fmt"
+import (
+	"fmt"
+	"strings"
+)
 
 func clampOK(v int64) bool { return v >= minI && v <= maxI }
 
@@ -96,6 +99,56 @@ func generate() {
 		do(fmt.Sprintf("get %d", u))
 	}
 
+	// ---- registrations (ptt.SetupNewUser): the new account must start with ITS balance, whatever the slot held ------
+	nid := 0
+	newID := func() string { nid++; return fmt.Sprintf("nu%d", nid) }
+	for _, fs := range [][]int64{{3}, {MAX}, {1}, {2, MAX - 1}} {
+		for _, old := range []int64{0, 777, -4, maxI} { // what the freed slot still holds (killUser leaves the balance)
+			for _, startMoney := range []int64{0, 5, 100000, -1, maxI, minI} {
+				if !run.Thorough() && (startMoney == maxI || startMoney == minI) && old != 777 {
+					continue
+				}
+				shm := baseBalances()
+				for _, u := range fs {
+					shm[u-1] = old
+				}
+				seed++
+				do(resetLine(nSlot, 0, seed, shm, nil) + " free=" + csv(fs))
+				for range fs {
+					do(fmt.Sprintf("newuser %s %d", newID(), startMoney))
+				}
+				for _, u := range fs {
+					do(fmt.Sprintf("get %d", u))
+					do(fmt.Sprintf("syncquery %d", u))
+					do(fmt.Sprintf("de %d -3", u))
+				}
+			}
+		}
+	}
+	{ // the freed slot's old balance only in SHM (disk 0), and only on disk
+		shm, disk := baseBalances(), baseBalances()
+		shm[4], disk[4] = 900, 0
+		do(resetLine(nSlot, 0, 7001, shm, disk) + " free=5")
+		do("newuser onlyshm 12")
+		do("get 5")
+		shm[4], disk[4] = 0, 900
+		do(resetLine(nSlot, 0, 7002, shm, disk) + " free=5")
+		do("newuser onlydisk 12")
+		do("get 5")
+		// refused: the id exists; no free slot; then a free slot queried before anybody owns it
+		do(resetLine(nSlot, 0, 7003, baseBalances(), nil) + " free=9")
+		do("newuser vu01 5")
+		do("syncquery 9")
+		do("load 9")
+		do("permupdate 9 1 2")
+		do("newuser first 5")
+		do("newuser first 6")
+		do("newuser second 6")
+		do(resetLine(nSlot, 0, 7004, baseBalances(), nil))
+		do("newuser nobody 5")
+		do("get 1")
+	}
+
 	// ---- single-op shapes, smallest first --------------------------------------------
 	for _, b := range starts {
 		for _, kind := range []string{"set", "de"} {
@@ -159,13 +212,32 @@ func generate() {
 			}
 			disk[nSlot-1] = shm[nSlot-1] + 1
 		}
-		do(resetLine(nSlot, 0, r.U64(), shm, disk))
+		var freeSet []int64
+		if r.Intn(6) == 0 {
+			for len(freeSet) < 1+r.Intn(3) {
+				u := 1 + int64(r.Intn(nSlot))
+				dup := false
+				for _, w := range freeSet {
+					dup = dup || w == u
+				}
+				if !dup {
+					freeSet = append(freeSet, u)
+				}
+			}
+			do(resetLine(nSlot, 0, r.U64(), shm, disk) + " free=" + csv(freeSet))
+		} else {
+			do(resetLine(nSlot, 0, r.U64(), shm, disk))
+		}
 		n := 3 + r.Intn(38)
 		for k := 0; k < n; k++ {
 			u := pickSlot()
 			cur := int64(0)
 			if inArr(u) {
 				cur = P.bal[u]
+			}
+			if freeSet != nil && r.Intn(5) == 0 {
+				do(fmt.Sprintf("newuser rn%dx%d %d", h, k, []int64{0, 5, int64(r.Intn(100000)), -7, maxI}[r.Intn(5)]))
+				continue
 			}
 			switch r.Intn(13) {
 			case 10:
@@ -250,6 +322,13 @@ func generate() {
 	}
 	do(fmt.Sprintf("reset nofile 0 0 %s -", csv(base)))
 	probe()
+	do(fmt.Sprintf("reset nofile 0 0 %s - free=4", csv(base)))
+	do("newuser ghost 5")
+	do("get 4")
+	do(fmt.Sprintf("reset 2 0 9 %s 1,2 free=4,1", csv(base)))
+	do("newuser shortf 5")
+	do("newuser shortg 6")
+	do("get 4")
 	tails := []int{0, 1, moneyOff, moneyOff + 2, moneyOff + 4, recSize - 1}
 	for _, nrec := range []int{0, 1, 2, nSlot - 1, nSlot + 3} {
 		for _, tail := range tails {
@@ -266,19 +345,38 @@ func generate() {
 	}
 	// (b) ill-formed lines (the state of the last reset is still there: a well-formed op must still work after them)
 	do(resetLine(nSlot, 0, 5, base, nil))
-	for _, l := range []string{
+	illFormed := []string{
 		"set", "set 1", "set 1 2 3", "de 1", "get", "get 1 2", "frob 1 2", "SET 1 2",
 		"set a 1", "set 1 b", "set 1 2147483648", "set 1 -2147483649", "de 2147483648 1", "get 99999999999",
 		"set +1 1", "set 1 1_0", "set 0x1 1", "set 1 -", "set - 1", "de 1 --1", "set 1 1.0", "set ١ 1",
+		"newuser", "newuser ab", "newuser 1a 5", "newuser a 5", "newuser abcdefghijklm 5", "newuser ab 2147483648",
+		"newuser ab 5 1", "newuser ab 5 1 zz", "newuser ab 5 -1 00", "newuser ab_c 5",
+		"reset 50 0 1 " + csv(base) + " " + csv(base) + " free=", "reset 50 0 1 " + csv(base) + " " + csv(base) + " free=0",
+		"reset 50 0 1 " + csv(base) + " " + csv(base) + " free=3,3", "reset 50 0 1 " + csv(base) + " " + csv(base) + " fre=3",
+		"resetconc 4 10", "resetconc x 10 1",
 		"load", "load 1 2", "syncquery a", "syncquery", "permupdate 1 2", "permupdate 1 2 4294967296", "permupdate 1 2 -1",
 		"permupdate 1 x 1", "permupdate 1 2 3 4", "permupdate 1 2 12345678901",
 		"layout now", "reset", "reset 50 0 1 1,2,3 1,2,3", "reset 50 0 x " + csv(base) + " " + csv(base),
 		"reset 49 0 1 " + csv(base) + " " + csv(base), "reset 50 512 1 " + csv(base) + " " + csv(base),
 		"reset nofile 0 0 " + csv(base) + " 1", "reset 101 0 1 " + csv(base) + " -",
 		"reset 50 0 1 " + csv(base) + " " + csv(base)[1:] + ",", "reset -1 0 1 " + csv(base) + " -",
-	} {
-		do(l)
 	}
+	// first the lines that do not look like a reset: the state of the last reset must survive them
+	for _, l := range illFormed {
+		if !strings.HasPrefix(l, "reset") {
+			do(l)
+		}
+	}
+	do("set 2 41")
+	do("get 2")
+	// then the ill-formed resets, followed by a proper one (a replay starts at the nearest line beginning with `reset`)
+	for _, l := range illFormed {
+		if strings.HasPrefix(l, "reset") {
+			do(l)
+		}
+	}
+	do("set 2 43")
+	do(resetLine(nSlot, 0, 6, base, nil))
 	do("set 1 42")
 	do("load 1")
 	do("de 50 -3")
